@@ -335,7 +335,7 @@ impl Property for C01 {
     }
 
     fn cases(tier: Tier) -> u64 {
-        tier.pick(24_000, 600_000)
+        tier.pick(24_000, 1_000_000)
     }
 
     fn exhaustive_spaces(_tier: Tier) -> Vec<String> {
